@@ -35,7 +35,7 @@ def from_json(j):
 
 brk_item = st.one_of(
     st.sampled_from(["a", "b", "c", "A", "_", "1", " ", "é", "日", ".", "*", "(", "[", "[", "*", "=", "\\", "\\"]).map(lambda c: ["c", c]),
-    st.sampled_from([("a", "c"), ("0", "9"), ("A", "B"), ("a", "z"), ("é", "日"), ("b", "b")]).map(lambda t: ["r", t[0], t[1]]),
+    st.sampled_from([("a", "c"), ("0", "9"), ("A", "B"), ("a", "z"), ("é", "日"), ("b", "b"), ("A", "z"), ("Z", "a"), ("X", "c")]).map(lambda t: ["r", t[0], t[1]]),
     st.sampled_from(CLASSNAMES).map(lambda c: ["k", c]),
 )
 brk_node = st.tuples(st.booleans(), st.lists(brk_item, min_size=1, max_size=3)).map(lambda t: ["brk", t[0], t[1]])
